@@ -196,8 +196,9 @@ def reservedNames : List String :=
 structure State where
   impl : Impl
   dims : List Nat
-  /-- `new` only: cell capacity, 0 = unbounded (`None` and 0 are both falsy in `add_agent`) -/
-  cap : Nat
+  /-- `new` only: cell capacity; `none` = unbounded (`capacity=None`).  A capacity of 0 is a capacity (repair SC3:
+      `capacity is not None and n >= capacity`): such a cell takes nobody. -/
+  cap : Option Nat
   heap : Nat → Arr
   /-- element type of every array; fixed at allocation (numpy arrays never change their dtype) -/
   adt : Nat → DType
@@ -228,7 +229,7 @@ def upd {α : Type} (f : Nat → α) (i : Nat) (x : α) : Nat → α := fun j =>
 
 /-- Array 0 is the emptiness array in both implementations: the data of the built-in `empty`
     layer (`Grid.__init__`: `create_property_layer("empty", True, bool)`) resp. `_empty_mask`. -/
-def init (impl : Impl) (dims : List Nat) (cap : Nat) : State :=
+def init (impl : Impl) (dims : List Nat) (cap : Option Nat) : State :=
   { impl, dims, cap,
     heap := fun _ _ => 1, adt := fun _ => .bool, next := 1,
     layers := fun _ => ⟨"empty", dims, 0⟩,
@@ -641,12 +642,14 @@ def State.isEmptyCell (s : State) (c : Coord) : Bool := s.agents.all (·.2 ≠ c
 def State.others (s : State) (a : Nat) (c : Coord) : Nat :=
   (s.agents.filter fun p => p.2 = c ∧ p.1 ≠ a).length
 
-/-- would `a` be refused by cell `c`?  (`SingleGrid`: occupied; `Cell.add_agent`: `capacity and n >= capacity`) -/
+/-- would `a` be refused by cell `c`?  (`SingleGrid`: occupied; `Cell.add_agent`: `capacity is not None and n >= capacity`) -/
 def State.fullFor (s : State) (a : Nat) (c : Coord) : Bool :=
   match s.impl with
   | .single => s.others a c ≥ 1
   | .multi => false
-  | .new => s.cap ≠ 0 && s.others a c ≥ s.cap
+  | .new => match s.cap with
+    | none => false
+    | some k => decide (s.others a c ≥ k)
 
 /-- the emptiness write done by the code: `cell.empty = v` (new, an ordinary attribute write on the
     cell) / `self._empty_mask[pos] = v` (legacy, array 0, in place) -/
